@@ -5,6 +5,7 @@ SmallAccessors == {"scores","clean","json_sm","mutate_json"}
 \* the bounded model calls a representative subset of accessors (the replay uses all of them)
 MCNext == \/ \E t \in Threads, i \in Inputs : Begin(t, i)
           \/ \E kind \in EntryPoints : EntryPoint(kind)
+          \/ \E o \in 1..MaxObjs : Copy(o)
           \/ \E t \in Threads : StepParse(t) \/ StepMandatory(t) \/ StepFill(t) \/ \E k \in 4..6 : StepScore(t, k)
           \/ \E o \in 1..MaxObjs, acc \in SmallAccessors : Call(o, acc)
 MCSpec == Init /\ [][MCNext]_vars
